@@ -59,6 +59,7 @@ def check(ctx, rep):
     rep.rule("R06c", "request text is decoded as UTF-8/surrogateescape everywhere (percent-decoding, query strings, request bodies)", floor=6)
     rep.rule("R06e", "URL-based renderers: relative link exactly when the entry names neither host nor port; otherwise entry.geturl()", floor=3)
     rep.rule("R06f", "unset fields are completed alike by the Gopher menu line and gopher:// URLs (own host/port; other host -> port 70; no type -> 0)", floor=4)
+    rep.rule("R06g", "= R04d: every protocol advertises adjust(entry.getmimetype()) for a selector (one MIME type per selector across protocols)", floor=3)
     rep.rule("R06d", "menu MIME type mapped to the protocol's listing type; adjust function total", floor=4)
     pb = ctx.cls("protocols.base.BaseGopherProtocol")
     if pb is None:
@@ -280,6 +281,9 @@ def check(ctx, rep):
 
     link_target_obligations(ctx, rep, "R06e")
     default_target_obligations(ctx, rep, "R06f")
+    from .c04 import advertised_type_obligations
+
+    advertised_type_obligations(ctx, rep, "R06g")
 
     # ------------------------------------------------------------------ R06d
     for P in protos:
@@ -423,7 +427,9 @@ def default_target_obligations(ctx, rep, rule="R06f"):
                 if not call.args and not call.keywords:
                     return Const(None)
             return None
-        w = Walker(prog, ctx.resolver, call_value=cv)
+        own_marker = {"self.server.server_port": Const("<own port>")}
+        w = Walker(prog, ctx.resolver, call_value=cv, assumptions=own_marker, sticky=set(own_marker),
+                   inline=lambda fn, t, d: d < 2 and t.bound_cls is not None and fn.cls is not None and fn.cls.module is ro.module)
         seen = set()
         for p in w.run(ro, plain):
             for e in p.events:
@@ -432,11 +438,12 @@ def default_target_obligations(ctx, rep, rule="R06f"):
                     args = (e.extra or {}).get("args") or []
                     d = kws.get("default") or (args[0] if args else None)
                     dn = next((k.value for k in e.node.keywords if k.arg == "default"), e.node.args[0] if e.node.args else None)
-                    from ..facts import expand_ast
+                    from ..structure import resolve_value
 
-                    dtext = norm(expand_ast(dn, ro, e.defs)) if dn is not None and e.defs else (norm(dn) if dn is not None else "")
+                    fn_ = e.frame[0] if e.frame and e.frame[0] is not None else ro
+                    dtext = norm(resolve_value(dn, fn_, plain, e.defs or None, prog, ctx.resolver)) if dn is not None else ""
                     if d is not None and d.kind == "const":
-                        seen.add(d.value)
+                        seen.add("own" if d.value == "<own port>" else d.value)
                     elif "server_port" in dtext and "70" not in dtext:
                         seen.add("own")
                     elif "server_port" in dtext:
